@@ -1459,9 +1459,9 @@ class HtmlTreeView(HtmlView):
 
     # Override uncollapse.
     if 'uncollapse' in call_kwargs or 'uncollapse' in overriden_kwargs:
-      uncollapse = KeyPathSet.from_value(
-          call_kwargs.pop('uncollapse', None) or []
-      )
+      uncollapse = call_kwargs.pop('uncollapse', None)
+      if not callable(uncollapse):
+        uncollapse = KeyPathSet.from_value(uncollapse or [])
       child_uncollapse = KeyPathSet.from_value(
           overriden_kwargs.pop('uncollapse', None) or []
       )
